@@ -61,6 +61,8 @@ class BoundedCtx:
         self.by_clause = {}
         self.ties = 0
         self.t0 = time.time()
+        self.known = load_known()
+        self._known_shown = {}
 
     def case(self, clause, ok, case, what="", nontrivial=True, key=None):
         """record one evaluation of a run-time contract clause on the real function"""
@@ -74,7 +76,14 @@ class BoundedCtx:
             self.samples.append({"clause": clause, "case": _js(case), "verdict": "holds" if ok else "FAILS"})
         if not ok:
             d[1] += 1
-            if sum(1 for f in self.failures if f["clause"] == clause) < 5:
+            # failures that a recorded known finding explains never use up the per-clause display budget of the others
+            k = match_known(self.known, self.pid, "%s/bounded/%s" % (self.pid, clause), _js(case))
+            if k is not None:
+                kk = (clause, str(k.get("witness")))
+                self._known_shown[kk] = self._known_shown.get(kk, 0) + 1
+                if self._known_shown[kk] <= 2:
+                    self.failures.append({"clause": clause, "case": _js(case), "what": what, "known": True})
+            elif sum(1 for f in self.failures if f["clause"] == clause and not f.get("known")) < 8:
                 self.failures.append({"clause": clause, "case": _js(case), "what": what})
         return ok
 
@@ -116,7 +125,7 @@ def match_known(known, pid, obligation, inputs):
     for k in known:
         if k.get("status") != "finding" or k.get("property") != pid:
             continue
-        if k.get("obligation") != obligation:
+        if k.get("obligation") != obligation and obligation not in (k.get("obligations") or ()):
             continue
         w = k.get("witness")
         if w is None:
